@@ -667,6 +667,53 @@ def partial_case(item):
     return res
 
 
+def unchanged_case(item):
+    """x is rebuilt while its dependency y is up to date (an `unchanged y` record in x's new log): `redo-log -r -u x` shows y's own
+    lines once, under y, and x's lines under x."""
+    _, j, seed = item
+    files = {
+        'y.do': scen.TRACE_HDR + 'echo "S $1 $$ $PPID" >&9\necho "y#0 first" >&2\necho "y#1 second" >&2\necho y > "$3"\necho "E $1 $$ 0" >&9\n',
+        'x.do': scen.TRACE_HDR + 'echo "S $1 $$ $PPID" >&9\necho "x#0 before" >&2\nredo-ifchange y xsrc\necho "x#1 after" >&2\necho x > "$3"\necho "E $1 $$ 0" >&9\n',
+        'xsrc': 'v0\n',
+    }
+    pj = scen.Project(files, 'c18u')
+    anoms = []
+    obs = dict(builds=0, unchanged_record_cases=1)
+    try:
+        r, _ = pj.run(['redo', '-j%d' % j, 'x'], extra={'REDO_PRETTY': '0'}, timeout=60, verif_log=False)
+        common.write_file(os.path.join(pj.top, 'xsrc'), 'v1\n')
+        os.utime(os.path.join(pj.top, 'xsrc'), ns=(int(time.time() * 1e9) + 5 * 10 ** 9,) * 2)
+        r1, _ = pj.run(['redo-ifchange', 'x'], extra={'REDO_PRETTY': '0'}, timeout=60, verif_log=False)
+        obs['builds'] = 2
+        if r.rc != 0 or r1.rc != 0 or r.panicked() or r1.panicked():
+            return dict(verdict='inconclusive', why='builds did not end normally', sample=dict(item=list(item)))
+        if '@@REDO:unchanged:' not in pj.logs_text():
+            return dict(verdict='inconclusive', why='no unchanged record was written', sample=dict(item=list(item)))
+        for flags in (['-r', '-u', '--no-pretty'], ['-r', '--no-pretty']):
+            r2, _ = pj.run(['redo-log'] + flags + ['x'], verif_log=False, timeout=60)
+            what = 'replay' + ('-u' if '-u' in flags else '')
+            if r2.rc != 0:
+                anoms.append(dict(key='%s:viewer-error:unchanged-dependency' % what, what='redo-log %s x exits %s: %s' % (' '.join(flags), r2.rc, (r2.err + r2.out)[-200:])))
+                continue
+            per, recs, problems = attribute(r2.out)
+            per = {os.path.normpath(k): [g.rstrip() for g in v] for k, v in per.items()}
+            if per.get('x') != ['x#0 before', 'x#1 after']:
+                anoms.append(dict(key='%s:lines-under-wrong-target:unchanged-dependency' % what,
+                                  what='redo-log %s x shows %s under x (the script wrote x#0 before, x#1 after); all: %s' % (' '.join(flags), per.get('x'), per)))
+            if '-u' in flags and per.get('y') != ['y#0 first', 'y#1 second']:
+                anoms.append(dict(key='%s:lines-lost:unchanged-dependency' % what, what='redo-log -r -u x shows %s under y (its log holds y#0 first, y#1 second)' % per.get('y')))
+            obs['unchanged_lines_attributed'] = obs.get('unchanged_lines_attributed', 0) + sum(len(v) for v in per.values())
+    finally:
+        pj.close()
+    res = dict(verdict='violated' if anoms else 'held', nontrivial=True, shape=common.shash(list(item)),
+               sample=dict(kind='unchanged-dependency-replay', j=j), obs=obs, sets=dict(segments=['unchanged-record']))
+    if anoms:
+        seen = set()
+        res['violations'] = [a for a in anoms if not (a['key'] in seen or seen.add(a['key']))][:4]
+        res['replay'] = dict(kind='unchanged', item=list(item))
+    return res
+
+
 def direct_case(item):
     _, seed, n = item
     rnd = random.Random(seed)
@@ -774,6 +821,8 @@ def dispatch(item):
         return oddname_case(item)
     if item[0] == 'partial':
         return partial_case(item)
+    if item[0] == 'unchanged':
+        return unchanged_case(item)
     return direct_case(item) if item[0] == 'direct' else case(item)
 
 
@@ -784,7 +833,7 @@ RULE = ('generated graphs of 3-25 writer scripts (nested and shared children) at
         'top-level command and the output of `redo-log -r --no-pretty` (from the project top and from a sub-directory) are attributed to '
         'targets by the do/resumed/done records (a record may be glued to an unterminated line); for every script that ran to its end the '
         'attributed lines must equal the written ones exactly (after trailing-whitespace stripping), no id-ed line may appear under another '
-        'target, each executed target has one do and one done record with its exit status. Two-spellings layer: a dependency that writes to stderr is asked for from two directories through different spellings (x, ../x, absolute, detours, a symlinked name of the directory), the second request during or after its build: each of its lines appears once, under its own name, live and in the replay. Piece-before-nested layer: a script writes a piece of a line and then asks for a dependency that is built (its record lands behind the piece on the same line): the lines of the dependency appear once under its name, the pieces of the script once under the script. Odd-names layer: targets whose names end or begin with a blank or a tab: lines stay under the exact name, the viewer does not give up. Direct layer: format->parse round trips of the '
+        'target, each executed target has one do and one done record with its exit status. Two-spellings layer: a dependency that writes to stderr is asked for from two directories through different spellings (x, ../x, absolute, detours, a symlinked name of the directory), the second request during or after its build: each of its lines appears once, under its own name, live and in the replay. Unchanged-record layer: a target is rebuilt while its dependency is up to date; `redo-log -r -u` shows the lines of the dependency once under its name and the lines of the target under the target. Piece-before-nested layer: a script writes a piece of a line and then asks for a dependency that is built (its record lands behind the piece on the same line): the lines of the dependency appear once under its name, the pieces of the script once under the script. Odd-names layer: targets whose names end or begin with a blank or a tab: lines stay under the exact name, the viewer does not give up. Direct layer: format->parse round trips of the '
         'record type for the fixed kind vocabulary x pids x timestamps x texts (incl. "@@ ", "@@REDO:", ":", unicode), plus the same under '
         'Miri (thorough).')
 ASSUME = ['script output that contains a syntactically valid record is in-band forgery and is not generated', 'pretty mode is presentation and is not compared',
@@ -813,6 +862,9 @@ def main(tier):
     for j in (1, 3):
         for rep in range(1 if quick else 5):
             items.append(('oddname', j, rep))
+    for j in (1, 3):
+        for rep in range(1 if quick else 4):
+            items.append(('unchanged', j, rep))
     for j in (1, 3):
         for nf in (False, True):
             for rep in range(1 if quick else 5):
